@@ -117,6 +117,30 @@ var convs = []conv{
 	{false, 17, ip4(0, 0, 0, 0), ip4(255, 255, 255, 255), 68, 67},    // DHCP
 }
 
+// nBase is the number of hand-written templates above; behind them: conversations whose two ports are BOTH in the
+// common-port table (all ordered pairs of TCP {53,80,443,445,8080} and of UDP {53,443}), IPv4 and IPv6, each between
+// its own host pair. The parser zeroes both ports in both directions, so the two keys are each other's Reverse().
+const nBase = 22
+
+var commonTCP = []uint16{53, 80, 443, 445, 8080}
+var commonUDP = []uint16{53, 443}
+
+func init() {
+	n := byte(0)
+	add := func(proto byte, ports []uint16) {
+		for _, p := range ports {
+			for _, q := range ports {
+				n++
+				convs = append(convs, conv{false, proto, ip4(10, 1, n, 1), ip4(10, 1, n, 2), p, q})
+				convs = append(convs, conv{true, proto, ip6(3, 2*n), ip6(3, 2*n+1), p, q})
+			}
+		}
+	}
+	add(6, commonTCP)
+	add(17, commonUDP)
+	fixed = fixedCases()
+}
+
 func mcast6() []byte {
 	x := make([]byte, 16)
 	x[0], x[1], x[13], x[15] = 0xff, 0x02, 1, 2
@@ -189,10 +213,28 @@ func fixedCases() []input {
 		out = append(out, newBuilder().pkt(mkPkt(mc, false, 0, 0, mc.cport), 4, 100).pkt(mkPkt(mc, false, 0, 0, mc.cport), 4, 101).
 			pkt(mkPkt(mc, false, 0, 0, mc.cport), 4, 102).ev("rot").pkt(mkPkt(mc, false, 0, 0, mc.cport), 4, 103).pkt(mkPkt(mc, false, 0, 0, mc.cport), 4, 104).ev("rot").in)
 	}
+	// both ports common: request and reply within one interval must be ONE record / ONE row; 6 conversations per case
+	for lo := nBase; lo < len(convs); lo += 6 {
+		b := newBuilder()
+		hi := lo + 6
+		if hi > len(convs) {
+			hi = len(convs)
+		}
+		for k := lo; k < hi; k++ {
+			c := convs[k]
+			b.pkt(mkPkt(c, false, 0x18, 0, c.cport), 4, uint32(100+k)).pkt(mkPkt(c, true, 0x18, 0, c.cport), 0, uint32(200+k))
+		}
+		b.ev("rot")
+		for k := lo; k < hi; k++ { // reply direction first in the next interval
+			c := convs[k]
+			b.pkt(mkPkt(c, true, 0x10, 0, c.cport), 0, uint32(300+k)).pkt(mkPkt(c, false, 0x10, 0, c.cport), 4, uint32(400+k))
+		}
+		out = append(out, b.ev("rot").in)
+	}
 	return out
 }
 
-var fixed = fixedCases()
+var fixed []input // filled by init (after the generated templates exist)
 
 func gen(r *vhlib.Rand, i int, o vhlib.Opts) any {
 	if i < len(fixed) {
@@ -204,9 +246,12 @@ func gen(r *vhlib.Rand, i int, o vhlib.Opts) any {
 	noVary := make([]bool, nc)
 	swapped := map[int]bool{} // per template, so that two picks of one template agree on the port order
 	for k := range cs {
-		ti := r.Intn(len(convs))
-		if r.Chance(45) {
-			ti = 13 + r.Intn(len(convs)-13) // bias to the templates with the client port below the server port
+		ti := r.Intn(nBase)
+		switch x := r.Intn(100); {
+		case x < 35:
+			ti = 13 + r.Intn(nBase-13) // templates with the client port below the server port
+		case x < 60:
+			ti = nBase + r.Intn(len(convs)-nBase) // both ports common
 		}
 		cs[k] = convs[ti]
 		sw, seen := swapped[ti]
